@@ -13,6 +13,7 @@ import (
 	"connectrpc.com/vanguard/vanguardgrpc"
 	"google.golang.org/genproto/googleapis/api/httpbody"
 	"google.golang.org/grpc"
+	"google.golang.org/protobuf/encoding/protojson"
 	"google.golang.org/protobuf/proto"
 	"google.golang.org/protobuf/reflect/protodesc"
 	"google.golang.org/protobuf/reflect/protoreflect"
@@ -504,7 +505,7 @@ func init() {
 			"is run against 10 registrations of the same schema (generated code by name; a copy whose fields carry no explicit json_name; fresh protodesc copy; descriptor set with its full import closure rebuilt (fresh descriptors for every imported type), also with a resolver that knows nothing; copy without parent file; resolver that knows nothing; resolver that knows only request types; dynamically typed google.api.http options; GlobalTypes resolver for a fresh copy) and against vanguardgrpc.NewTranscoder vs NewService-by-name over one grpc.Server; " +
 			"every variant's client- and backend-side semantic outcome must equal the generated-code variant's. Drift: a schema whose content differs from the linked-in file of the same path (Book gets an extra field) must behave as the same content registered under another path (4 requests x 3 targets). Parameter kinds: every field path (depth <= 2) of vanguard.test.v1.ParameterValues x 24 value corners (NaN / infinities, range edges, ill-typed) as a query parameter of a GET and of a POST with a body field x 3 targets, bound into generated types vs dynamicpb types vs a resolver that knows nothing. Non-trivial = (request, target, variant) whose message types resolve to a different Go type than in the baseline.",
 		Assume:    []string{"messages are compared after decoding against the generated descriptors"},
-		Scenarios: []Scenario{{Name: "variants", Fn: c20Scenario, QuickBound: 0, ThoroughBound: 0}, {Name: "drift", Fn: c20Drift, QuickBound: 0, ThoroughBound: 0}, {Name: "any-type-urls", Fn: c20AnyURLs, QuickBound: 0, ThoroughBound: 0}, {Name: "param-kinds", Fn: c20Params, QuickBound: 0, ThoroughBound: 0}},
+		Scenarios: []Scenario{{Name: "variants", Fn: c20Scenario, QuickBound: 0, ThoroughBound: 0}, {Name: "drift", Fn: c20Drift, QuickBound: 0, ThoroughBound: 0}, {Name: "any-of-a-deep-import", Fn: c20DeepAny, QuickBound: 0, ThoroughBound: 0}, {Name: "any-type-urls", Fn: c20AnyURLs, QuickBound: 0, ThoroughBound: 0}, {Name: "param-kinds", Fn: c20Params, QuickBound: 0, ThoroughBound: 0}},
 	})
 }
 
@@ -851,6 +852,89 @@ func c20Drift(c *xplor.Ctx) {
 		c.Fail("harness.setup", "the drift scenario does not exercise the extra field: %s", short(other))
 	}
 	c.Outcome("drift:" + strings.SplitN(same, " ", 2)[0])
+}
+
+// ---- a type that belongs to the schema only through an import of an import (and is not linked into
+// the binary), carried in a google.protobuf.Any: the service's default resolver must know it like a
+// resolver over all the schema's files does.
+
+func c20DeepAny(c *xplor.Ctx) {
+	svc, all, err := world.BuildDeepService()
+	if err != nil {
+		c.Fail("harness.setup", "%v", err)
+		return
+	}
+	form := []wire.Form{wire.ConnectUnary, wire.GRPCWeb}[c.Free("client", 2)]
+	tp := []vanguard.Protocol{vanguard.ProtocolGRPC, vanguard.ProtocolConnect}[c.Free("target", 2)]
+	dir := c.Free("direction", 2) // 0: JSON client, proto backend; 1: proto client, JSON backend
+	c.Attr("request", "any:verif.deep.Leaf (import of an import)")
+	c.Attr("target", tp.String())
+	body := `{"name":"outer","anyValue":{"@type":"type.googleapis.com/verif.deep.Leaf","name":"inside"}}`
+	ccodec, tcodec := "json", "proto"
+	if dir == 1 {
+		ccodec, tcodec = "proto", "json"
+	}
+	// (compared as values: the order of fields in protobuf's binary form is not fixed)
+	canon := func(codec string, b []byte) string {
+		if codec == "json" {
+			return canonJSON(b)
+		}
+		m := dynamicpb.NewMessage(world.MsgDesc())
+		if err := proto.Unmarshal(b, m); err != nil {
+			return fmt.Sprintf("undecodable %x", b)
+		}
+		j, err := protojson.MarshalOptions{Resolver: all}.Marshal(m)
+		if err != nil {
+			return fmt.Sprintf("unrenderable %x", b)
+		}
+		return canonJSON(j)
+	}
+	run := func(opts ...vanguard.ServiceOption) string {
+		backendView := ""
+		be := &world.Backend{}
+		be.Respond = func(b *world.Backend, r *http.Request) *world.Reply {
+			for _, m := range b.Parsed.Msgs {
+				backendView += canon(tcodec, m) + ";"
+			}
+			return world.EchoReply(b.Parsed, b.Parsed.Msgs, "", nil)
+		}
+		tc, err := world.Build(world.Config{Service: svc, Protocols: []vanguard.Protocol{tp}, Codecs: []string{tcodec}, NoCompress: true, MaxMsg: 1 << 16, ExtraOpts: opts}, be)
+		if err != nil {
+			return "NewTranscoder error: " + err.Error()
+		}
+		msg := []byte(body)
+		if ccodec == "proto" {
+			m := dynamicpb.NewMessage(world.MsgDesc())
+			if err := (protojson.UnmarshalOptions{Resolver: all}).Unmarshal(msg, m); err != nil {
+				return "harness: " + err.Error()
+			}
+			msg, _ = proto.MarshalOptions{Deterministic: true}.Marshal(m)
+		}
+		ex, err := world.Do(tc, world.SpecFromClient(&wire.ClientReq{Form: form, Path: "/verif.deep.DeepSvc/Unary", Codec: ccodec, Msgs: [][]byte{msg}}))
+		if err != nil {
+			return "build error: " + err.Error()
+		}
+		pr := wire.ParseClientResponse(form, ex.Rec.Status, ex.Rec.HeadHeaders(), ex.Rec.BodyBytes.Bytes(), ex.Rec.Trailers)
+		v := fmt.Sprintf("status=%d end=%d/%q|", ex.Rec.Status, pr.End.Code, short(pr.End.Message))
+		for _, m := range pr.Msgs {
+			v += canon(ccodec, m) + ";"
+		}
+		if ex.Panic != nil {
+			v += " PANIC " + ex.Panic.Value
+		}
+		return v + " || backend: " + backendView
+	}
+	def, explicit := run(), run(vanguard.WithTypeResolver(all))
+	c.AddEvaluations(1)
+	c.Nontrivial(fmt.Sprint("deep-any|", form, tp, dir))
+	if def != explicit {
+		c.Attr("variant", "default resolver of a dynamically described service")
+		c.Fail("C20.variant-behaves-differently", "a google.protobuf.Any holding verif.deep.Leaf, declared in a file the service's file reaches through an import of an import (%s client %s, %s/%s target)\n with a resolver over all files of the schema: %s\n with the service's default resolver:          %s", form, ccodec, tp, tcodec, short(explicit), short(def))
+	}
+	if !strings.Contains(explicit, "status=200") {
+		c.Fail("harness.setup", "the reference run does not succeed: %s", short(explicit))
+	}
+	c.Outcome("deep-any:" + strings.SplitN(def, " ", 2)[0])
 }
 
 // ---- type URLs: a dynamically described service resolves the types inside google.protobuf.Any
